@@ -230,8 +230,9 @@ func (in *Interp) global(g *ssa.Global) *Value {
 var errType = types.NewNamed(types.NewTypeName(token.NoPos, nil, "opaqueError", nil), types.NewStruct(nil, nil), nil)
 
 type OpaqueErr struct {
-	Msg   string
-	Inner Value
+	Msg     string
+	Inner   Value
+	Wrapped []Value
 }
 
 func (in *Interp) isModulePkg(p *ssa.Package) bool {
